@@ -187,9 +187,15 @@ class RSocketClient(RSocketBase):
         return self._is_server_alive
 
     async def _keepalive_timeout_task(self):
+        receiver_task = self._receiver_task  # the watchdog belongs to the receiver which started it
+
         try:
             while True:
                 await asyncio.sleep(self._max_lifetime_period.total_seconds())
+
+                if receiver_task is not None and receiver_task.done():
+                    return
+
                 now = datetime.now()
                 time_since_last_keepalive = now - self._last_server_keepalive
 
@@ -199,6 +205,9 @@ class RSocketClient(RSocketBase):
                         time_since_last_keepalive,
                         self
                     )
+
+                    if receiver_task is not None and receiver_task.done():
+                        return  # the call-back closed the connection
         except asyncio.CancelledError:
             logger().debug('%s: Asyncio task canceled: keepalive_timeout', self._log_identifier())
 
@@ -208,4 +217,7 @@ class RSocketClient(RSocketBase):
         try:
             await super()._receiver_listen()
         finally:
-            await cancel_if_task_exists(keepalive_timeout_task)
+            # cancelled but not awaited: when the application closes the connection from on_keepalive_timeout,
+            # the watchdog is the task which waits for this receiver to finish.
+            if keepalive_timeout_task is not None:
+                keepalive_timeout_task.cancel()
